@@ -81,6 +81,9 @@ func vfC10FilterConfig(c vfc10.Cfg, r *vfutil.Rand) config.FilterConfig {
 	return fc
 }
 
+// coverage of the options drawn for the outputs of the parser sessions (flushed into the session's counters)
+var vfC10OptCount = map[string]int{}
+
 func vfC10OutputDbs(c vfc10.Cfg, r *vfutil.Rand, d vfC10Dbs) *RedisOutput {
 	// dimensions no rule of C10 depends on are drawn too: the kind of target, the delay probe key
 	typ := config.RedisTypeStandalone
@@ -97,6 +100,11 @@ func vfC10OutputDbs(c vfc10.Cfg, r *vfutil.Rand, d vfC10Dbs) *RedisOutput {
 		ReplaceHashTag:   r.Chance(1, 8),
 	})
 	ro.startDbId = d.sdb
+	vfC10OptCount[fmt.Sprintf("cfg_redisType_cluster_%v", typ == config.RedisTypeCluster)]++
+	vfC10OptCount[fmt.Sprintf("cfg_replaceHashTag_parser_%v", ro.cfg.ReplaceHashTag)]++
+	vfC10OptCount[fmt.Sprintf("cfg_syncDelayTestKey_set_%v", d.probe != "")]++
+	vfC10OptCount[fmt.Sprintf("cfg_keyFilterSection_nil_%v", ro.cfg.Filter.KeyFilter == nil)]++
+	vfC10OptCount[fmt.Sprintf("cfg_slotFilterSection_nil_%v", ro.cfg.Filter.SlotFilter == nil)]++
 	return ro
 }
 
@@ -357,6 +365,22 @@ type vfC10Ent struct {
 // string keys to the REAL worker loop (RedisOutput.rdbReplay, or
 // rdbReplayBisync) against the target double, and reports which entries
 // arrived in the target.
+// options of the snapshot path no rule of C10 depends on, drawn per run (dimension audit): worker count, keyExists policy,
+// and - in the forced single-entry cases only - replaceHashTag (the entry is then looked up under its target key)
+var vfC10RdbOpt = struct {
+	replace   bool
+	parallel  int
+	keyExists string
+}{false, 1, "replace"}
+
+func vfC10RdbTarget(k []byte) []byte {
+	if !vfC10RdbOpt.replace {
+		return k
+	}
+	k = bytes.Replace(k, []byte("{"), nil, 1)
+	return bytes.Replace(k, []byte("}"), nil, 1)
+}
+
 func vfC10RdbRun(t *testing.T, c vfc10.Cfg, r *vfutil.Rand, ents []vfC10Ent, bisync bool) (kept []bool, runErr error) {
 	kvs := make([]vfc20.KV, len(ents))
 	for i, e := range ents {
@@ -379,10 +403,11 @@ func vfC10RdbRun(t *testing.T, c vfc10.Cfg, r *vfutil.Rand, ents []vfC10Ent, bis
 			BisyncEnabled:              bisync,
 			EnableResumeFromBreakPoint: true,
 			TargetDb:                   -1,
-			KeyExists:                  "replace",
+			KeyExists:                  vfC10RdbOpt.keyExists,
+			ReplaceHashTag:             vfC10RdbOpt.replace,
 			MaxProtoBulkLen:            512 << 20,
 			ReplayRdbEnableRestore:     false,
-			ReplayRdbParallel:          1,
+			ReplayRdbParallel:          vfC10RdbOpt.parallel,
 			Stats:                      config.OutputStats{DisableLog: true},
 			Filter:                     fc,
 		}
@@ -408,7 +433,7 @@ func vfC10RdbRun(t *testing.T, c vfc10.Cfg, r *vfutil.Rand, ents []vfC10Ent, bis
 		synctest.Wait()
 		tg.CloseAll()
 		for i, e := range ents {
-			kept[i] = tg.Get(e.db, string(e.key)) != nil
+			kept[i] = tg.Get(e.db, string(vfC10RdbTarget(e.key))) != nil
 		}
 	})
 	return
@@ -783,6 +808,108 @@ func TestVerifC10(t *testing.T) {
 	}
 
 	e.EdgeSlots()
+	e.ForcedDims(r)
+	// dbBlacklist x targetDb / targetDbMap (injective, colliding with the blacklist, non-injective) x resumed run
+	// (startDbId 0 / unlisted / listed / mapped onto a listed number) x SELECT inside MULTI: forced, every combination
+	{
+		w := func(a ...string) [][]byte {
+			o := make([][]byte, len(a))
+			for i := range a {
+				o[i] = []byte(a[i])
+			}
+			return o
+		}
+		streams := [][][][]byte{
+			{w("set", "a", "1"), w("SELECT", "2"), w("set", "b", "1"), w("select", "1"), w("set", "c", "1"), w("SELECT", "3"), w("del", "d")},
+			{w("set", "a", "1"), w("MULTI"), w("SELECT", "2"), w("set", "b", "1"), w("select", "3"), w("set", "c", "1"), w("EXEC"), w("set", "d", "1"), w("select", "1"), w("set", "e", "1")},
+			{w("multi"), w("set", "a", "1"), w("select", "1"), w("mset", "b", "1", "c", "2"), w("exec"), w("SELECT", "2"), w("MULTI"), w("set", "f", "1"), w("EXEC"), w("select", "0"), w("set", "g", "1")},
+		}
+		for _, db := range [][]int{nil, {2}, {0}, {1, 2, 3}} {
+			c := vfc10.Cfg{DB: db}
+			for _, d0 := range []vfC10Dbs{{tdb: -1}, {tdb: 0}, {tdb: 2}, {tdb: -1, m: map[int]int{1: 2}}, {tdb: -1, m: map[int]int{2: 5}}, {tdb: -1, m: map[int]int{1: 2, 3: 2, 0: 7}}} {
+				for _, sdb := range []int{0, 1, 2, 3} {
+					d := d0
+					d.sdb = sdb
+					for _, st := range streams {
+						parseOp(c, d, st, "forced")
+					}
+					listed := false
+					for _, x := range db {
+						if x == sdb {
+							listed = true
+						}
+					}
+					hits := false
+					for _, v := range d.m {
+						for _, x := range db {
+							if x == v {
+								hits = true
+							}
+						}
+					}
+					s.Count(fmt.Sprintf("cfg_targetDb_%d", d.tdb))
+					s.Count("cfg_targetDbMap_" + map[bool]string{true: "none", false: "set"}[len(d.m) == 0])
+					s.Count(fmt.Sprintf("cfg_dbmap_target_is_blacklisted_%v", hits))
+					s.Count(fmt.Sprintf("cfg_startDb_listed_%v", listed))
+					s.Count("forced_select_in_multi")
+				}
+			}
+		}
+		// replaceHashTag ON in both snapshot loops (single-entry snapshots; judged by the rules + "the target key is not a
+		// bookkeeping key", no model line: the model is the replaceHashTag-off case)
+		vfC10RdbOpt.replace = true
+		for _, c := range []vfc10.Cfg{{}, {PB: []string{"bad:"}}, {SB: [][]uint16{{0}}}, {DB: []int{1}}} {
+			eff := e.Eff(c)
+			for _, k := range []string{"k", "", "{a}b", "bad:{x}", "{bad:}x", "{redis-gunyu-bisync:}cp:latest:{slot-0}", "{redis-gunyu-checkpoint}x", "{/redis-gunyu}/x", "redis-gunyu-bisync{:}x"} {
+				for _, bis := range []bool{false, true} {
+					ent := vfC10Ent{0, []byte(k)}
+					kept, err := vfC10RdbRun(t, c, r, []vfC10Ent{ent}, bis)
+					s.Count("cfg_replaceHashTag_true")
+					if err != nil {
+						s.Violate("rdbReplay-error", err.Error(), map[string]interface{}{"cfg": c.Fields(), "key_hex": vfutil.HexS(k), "replaceHashTag": true, "bisync": bis})
+						continue
+					}
+					tk := vfC10RdbTarget(ent.key)
+					reserved := false
+					for _, ns := range vfc10.BookkeepingNamespaces {
+						if bytes.HasPrefix(tk, []byte(ns)) || bytes.HasPrefix(ent.key, []byte(ns)) {
+							reserved = true
+						}
+					}
+					want := !vfc10.WantFilterDb(eff, 0) && !vfc10.WantFilterKey(eff, ent.key) && !vfc10.WantFilterSlot(eff, ent.key) && !reserved
+					if kept[0] != want {
+						s.Violate("rdbReplay-replaceHashTag", fmt.Sprintf("replaceHashTag on, bisync=%v, snapshot key %q (written as %q): replayed=%v, rules + reserved namespaces say %v", bis, k, tk, kept[0], want),
+							map[string]interface{}{"cfg": c.Fields(), "key_hex": vfutil.HexS(k), "replaceHashTag": true, "bisync": bis, "got": kept[0], "want": want})
+					}
+				}
+			}
+		}
+		vfC10RdbOpt.replace = false
+		s.Count("cfg_replaceHashTag_false")
+		// the degenerate inputs through BOTH parser loops (plain; bisync stand-alone and cluster): the empty key alone and
+		// among several keys, a command without arguments, 1000 keys with the rejected one at either end, mixed case
+		big := func(at int) [][]byte {
+			a := [][]byte{[]byte("DeL")}
+			for i := 0; i < 1000; i++ {
+				a = append(a, []byte(fmt.Sprintf("k:%d", i)))
+			}
+			a[1+at] = []byte("bad:1")
+			return a
+		}
+		deg := [][][]byte{w("set", "", "v"), w("SET", "k", "v"), w("DEL", "k", "", "bad:1"), w("mSeT", "", "1", "bad:2", "2", "k2", "3"), w("unlink", ""), w("rename", "", "k"),
+			big(0), big(999), w("del", "bad:1", "bad:2"), w("Set", "bad:1", "v")}
+		for _, c := range []vfc10.Cfg{{}, {PB: []string{"bad:"}}, {SB: [][]uint16{{0}}}, {SW: [][]uint16{{1, 16383}}, PB: []string{"bad:"}}, {PW: []string{""}}, {PW: []string{"k", ""}}, {PB: []string{""}}, {CB: []string{"", "unlink"}, PB: []string{"bad:"}}} {
+			parseOp(c, vfC10Dbs{tdb: -1}, deg, "forced")
+			bparseOp(c, deg, false, "forced")
+			bparseOp(c, deg, true, "forced")
+			s.Count("forced_degenerate_streams")
+		}
+	}
+	defer func() {
+		for k, v := range vfC10OptCount {
+			s.Add(k, v)
+		}
+	}()
 	nCfg := vfutil.Scale(400, 8000)
 	for i := 0; i < nCfg; i++ {
 		e.RunGenerated(r, 1, 15, 25)
@@ -823,13 +950,18 @@ func TestVerifC10(t *testing.T) {
 				}
 				key := vfc10.GenKey(r, eff)
 				id := fmt.Sprintf("%d/%s", db, key)
-				if len(key) == 0 || seen[id] {
+				if seen[id] { // "" is a key like any other (slot 0)
 					continue
 				}
 				seen[id] = true
 				ents = append(ents, vfC10Ent{db, key})
 			}
+			vfC10RdbOpt.parallel = vfutil.Pick(r, []int{1, 3})
+			vfC10RdbOpt.keyExists = vfutil.Pick(r, []string{"replace", ""})
+			s.Count(fmt.Sprintf("cfg_replayRdbParallel_%d", vfC10RdbOpt.parallel))
+			s.Count("cfg_keyExists_" + map[string]string{"replace": "replace", "": "none"}[vfC10RdbOpt.keyExists])
 			rdbOps(c, ents, "gen")
+			vfC10RdbOpt.parallel, vfC10RdbOpt.keyExists = 1, "replace"
 		}
 	}
 }
